@@ -183,7 +183,8 @@ pub struct ReceiverKit {
 }
 
 pub fn mk_receiver(own_prefix: GuidPrefix) -> ReceiverKit {
-  let (acknack_tx, acknack_rx) = mio_channel::sync_channel(256);
+  // (the capacity dp_event_loop gives this pipe)
+  let (acknack_tx, acknack_rx) = mio_channel::sync_channel(100);
   let (spdp_tx, spdp_rx) = mio_channel::sync_channel(8);
   let mr = MessageReceiver::new(own_prefix, acknack_tx, spdp_tx, sec());
   ReceiverKit {
